@@ -188,10 +188,52 @@ static void c4_case(uint64_t idx, void *vctx)
                   SF[fi].name, SSZ[szi][0], SSZ[szi][1], smode, place ? "start" : "end", XF[xi].name, FILN[fil], rep, (unsigned long long)n);
 }
 
+
+/* ---------------- same-shape copies between views of larger buffers ----------------
+ * Source and destination have the same format, width, height and a stride LARGER than a row, and each is a view whose last row
+ * ends exactly at a PROT_NONE page (the bytes between rows belong to a parent image, the bytes after the last row do not exist).
+ * Whole-image copies must neither read nor write the inter-row gaps or anything past the last pixel. */
+static void copy_case(uint64_t idx, void *vctx)
+{
+    static const pixman_format_code_t fm[6] = { PIXMAN_a8, PIXMAN_r8g8b8, PIXMAN_r5g6b5, PIXMAN_a8r8g8b8, PIXMAN_a1, PIXMAN_a4 };
+    static const char *fmn[6] = { "a8", "r8g8b8", "r5g6b5", "a8r8g8b8", "a1", "a4" };
+    static const int sz[4][2] = { { 20, 6 }, { 20, 1 }, { 5, 3 }, { 33, 2 } };
+    static const pixman_op_t ops[3] = { PIXMAN_OP_SRC, PIXMAN_OP_OVER, PIXMAN_OP_ADD };
+    int fi = (int)(idx % 6); idx /= 6; int si = (int)(idx % 4); idx /= 4; int oi = (int)(idx % 3); idx /= 3; int ci = (int)(idx % NCFG_LIST); idx /= NCFG_LIST; int extra = (idx % 2) ? 12 : 4;
+    int w = sz[si][0], h = sz[si][1], bpp = PIXMAN_FORMAT_BPP(fm[fi]);
+    int rowbytes = (w * bpp + 7) / 8, stride = ((w * bpp + 31) / 32) * 4 + extra;
+    size_t size = (size_t)stride * (h - 1) + (size_t)((rowbytes + 3) & ~3);       /* the last row has no padding behind it (rounded to the 4-byte unit of bits) */
+    gp_t gs = gp_alloc(size, 0, 0x00), gd = gp_alloc(size, 0, 0x00);
+    /* pixels: deterministic; inter-row gaps: sentinel 0xA7 in the destination (must survive), 0x5C in the source (must not be copied) */
+    for (int y = 0; y < h; y++) {
+        for (int b = 0; b < stride && (size_t)y * stride + b < size; b++) {
+            int inrow = b < rowbytes;
+            gs.lo[(size_t)y * stride + b] = inrow ? (uint8_t)(y * 37 + b * 11 + 5) : 0x5c;
+            gd.lo[(size_t)y * stride + b] = inrow ? (uint8_t)(y * 13 + b * 7 + 1) : 0xa7;
+        }
+    }
+    pixman_image_t *src = pixman_image_create_bits(fm[fi], w, h, (uint32_t *)gs.lo, stride), *dst = pixman_image_create_bits(fm[fi], w, h, (uint32_t *)gd.lo, stride);
+    ph_set_cfg(CFG_LIST[ci]);
+    pixman_image_composite32(ops[oi], src, NULL, dst, 0, 0, 0, 0, 0, 0, w, h);
+    vf_count_libcalls(1);
+    pixman_image_unref(src); pixman_image_unref(dst);
+    char cfgn[64];
+    for (int y = 0; y < h && !vf_failed(); y++) for (int b = rowbytes; b < stride && (size_t)y * stride + b < size; b++) {
+        if (bpp < 8 && b == rowbytes - 1) continue;
+        if (gd.lo[(size_t)y * stride + b] != 0xa7 && b >= ((w * bpp + 7) / 8))
+            vf_violation("c04-copy-wrote-between-rows", "%s %dx%d stride %d op %d PIXMAN_DISABLE=[%s]: byte %d of row %d (beyond the %d bytes of the row, i.e. the parent image's pixels) was modified",
+                         fmn[fi], w, h, stride, (int)ops[oi], ph_cfg_name(CFG_LIST[ci], cfgn, sizeof cfgn), b, y, rowbytes);
+    }
+    uint64_t hsh = vf_hash64(gd.lo, size, 9);
+    gp_free(&gs); gp_free(&gd);
+    vf_count_eval(1); vf_count_nontrivial(1);
+    if (!vf_in_confirm) vf_outcome(hsh);
+}
+
 static const char *classify(const char *space, uint64_t idx, const char *defkey)
 {
     static char k[64];
-    snprintf(k, sizeof k, "c04-%s-%s", defkey, !strncmp(space, "trap", 4) ? "trapezoid" : !strncmp(space, "glyph", 5) ? "glyph" : !strncmp(space, "create", 6) ? "create-bits" : "composite");
+    snprintf(k, sizeof k, "c04-%s-%s", defkey, !strncmp(space, "trap", 4) ? "trapezoid" : !strncmp(space, "glyph", 5) ? "glyph" : !strncmp(space, "create", 6) ? "create-bits" : !strncmp(space, "same-shape", 10) ? "copy" : "composite");
     return k;
 }
 
@@ -338,11 +380,12 @@ int main(int argc, char **argv)
     uint64_t nfull = th ? (uint64_t)4 * 6 * NXF * 3 * 5 * NSF : (uint64_t)4 * 4 * NXF * 2 * 3 * NSF;
     vf_space_run("composite-transformed-sources", nfull, c4_case, &c);
     vf_space_run("trapezoid-entry-points", th ? (uint64_t)NTY * NTY * NTX * NTX * NTX * 3 * 5 : (uint64_t)9 * 9 * 7 * 7 * 7 * 3 * 2, trap_case, th ? &c : NULL);
+    vf_space_run("same-shape-copies-between-views", (uint64_t)6 * 4 * 3 * NCFG_LIST * 2, copy_case, NULL);
     vf_space_run("glyph-positions", (uint64_t)14 * 14 * 3 * 2 * 3, glyph_case, NULL);
     vf_space_run("create-bits-sizes", 9 * 9 * 6, create_case, NULL);
     static char b[300];
     snprintf(b, sizeof b, "%d source formats x %s sizes x %s stride modes x alternating guard-page placement x %d transforms x %d filters x 4 repeats x 6 requests x %d ops x %d cfgs x %d destination formats; "
-             "trapezoids %dx%d y x %d^3 x values x 3 depths x %d offsets; glyphs 14x14 positions; create_bits 9x9 sizes x 6 formats", NSF, th ? "5 of 6" : "3 of 6", th ? "3" : "2 of 3", NXF, th ? 6 : 4,
+             "trapezoids %dx%d y x %d^3 x values x 3 depths x %d offsets; same-shape copies between padded views (6 formats x 4 sizes x 3 ops x 6 cfgs); glyphs 14x14 positions; create_bits 9x9 sizes x 6 formats", NSF, th ? "5 of 6" : "3 of 6", th ? "3" : "2 of 3", NXF, th ? 6 : 4,
              th ? 3 : 2, th ? 6 : 4, th ? 2 : 1, th ? NTY : 9, th ? NTY : 9, th ? NTX : 7, th ? 5 : 2);
     vf_bounds = b;
     snprintf(vf->extra_json, sizeof vf->extra_json, "\"arithmetic_traps_observed\": %llu, \"arithmetic_traps_note\": \"SIGFPE (INT_MIN / -1 in pixman_edge_init for edges spanning the whole 16.16 y range) is a crash but not an out-of-bounds access; counted, not judged\"", (unsigned long long)*fpe_count);
